@@ -17,6 +17,9 @@ pub enum Policy {
     Pct { changes: Vec<u64> },
     /// switch only at operation boundaries
     RunToCompletion,
+    /// gather the clients at one site: a client that reaches it parks until every other live client has
+    /// reached it too (or finished); elsewhere a client runs on, switching only at operation boundaries
+    Barrier { site: u32 },
 }
 
 #[derive(Clone, Debug, Serialize, Deserialize, PartialEq)]
@@ -104,6 +107,7 @@ struct Inner {
     rng: Rng,
     policy: Policy,
     prio: Vec<u64>,
+    at_barrier: Vec<bool>,
     site_mask: u64,
     faults: Vec<Fault>,
     jumps: Vec<Jump>,
@@ -183,6 +187,7 @@ impl Sched {
                 rng,
                 policy,
                 prio,
+                at_barrier: vec![false; n],
                 site_mask,
                 faults,
                 jumps,
@@ -271,6 +276,34 @@ impl Sched {
             Policy::RunToCompletion => {
                 if site == SITE_OP_BEGIN || site == SITE_OP_END {
                     Self::pick_other(g, me, true)
+                } else {
+                    me
+                }
+            }
+            Policy::Barrier { site: bs } => {
+                if site == bs {
+                    g.at_barrier[me] = true;
+                    let waiting: Vec<usize> = (0..g.alive.len()).filter(|i| g.alive[*i] && !g.at_barrier[*i]).collect();
+                    if waiting.is_empty() {
+                        // everyone is here: open the barrier
+                        for b in g.at_barrier.iter_mut() {
+                            *b = false;
+                        }
+                        me
+                    } else {
+                        waiting[g.rng.below(waiting.len())]
+                    }
+                } else if site == SITE_OP_BEGIN || site == SITE_OP_END {
+                    // prefer a client that is not parked at the barrier
+                    let free: Vec<usize> = (0..g.alive.len()).filter(|i| g.alive[*i] && !g.at_barrier[*i]).collect();
+                    if free.is_empty() {
+                        for b in g.at_barrier.iter_mut() {
+                            *b = false;
+                        }
+                        Self::pick_other(g, me, true)
+                    } else {
+                        free[g.rng.below(free.len())]
+                    }
                 } else {
                     me
                 }
